@@ -3,8 +3,10 @@
   (shared by C24 `Model/CrashRe.lean` and C25 `Model/CrashCl.lean`).   Core imports only.
 
   * a file system is a map  path ↦ absent | content ; a *partially written* file is simply a file whose content
-    is a proper prefix of what the code meant to write: writes are modelled byte by byte (`Op.append`), so
-    "killed in the middle of a write" is "killed between two `append`s";
+    is a proper prefix of what the code meant to write.  Python file objects are buffered: `write()` puts the data into
+    the process' buffer (`Op.wbuf`, lost when the process is killed) and it reaches the file when the buffer is flushed at
+    `close()`, modelled byte by byte (`Op.append`), so "killed in the middle of the flush" is "killed between two
+    `append`s" and "killed between write() and close()" leaves the file as `open` left it (empty after "w");
   * `exec` is the effect of one operation, `execs` of a sequence; a process killed after `k` operations leaves
     `execs fs (ops.take k)`; nothing else of the process survives.
   Directories are not tracked (`mkdir` has no effect on the file map; the drivers create them with exist_ok=True
@@ -30,8 +32,9 @@ inductive Op (P : Type) where
   | mkdir (p : P)                 -- os.makedirs(p, exist_ok=True)
   | openW (p : P)                 -- open(p, "w"/"wb"): create or truncate
   | openA (p : P)                 -- open(p, "a"): create if absent, keep content
-  | append (p : P) (b : Nat)      -- one more byte of a write() has reached the file
-  | close (p : P)                 -- close(): no effect on the content (writes are unbuffered in the model)
+  | wbuf (p : P)                  -- write(): the data goes into the process' buffer; nothing reaches the file
+  | append (p : P) (b : Nat)      -- flush at close(): one more byte of the buffered data has reached the file
+  | close (p : P)                 -- end of close(): no further effect on the content
   | replace (src dst : P)         -- os.replace(src, dst): atomic
   | remove (p : P)                -- os.remove / Path.unlink(missing_ok=True)
   | opaque (p : P)                -- a file written by a library (HDF5, PNG) that nothing ever reads back
@@ -39,6 +42,7 @@ inductive Op (P : Type) where
 
 def exec {P : Type} [DecidableEq P] (fs : FS P) : Op P → FS P
   | .mkdir _ => fs
+  | .wbuf _ => fs
   | .openW p => fs.set p (some [])
   | .openA p => fs.set p (some ((fs p).getD []))
   | .append p b => fs.set p (some ((fs p).getD [] ++ [b]))
@@ -49,17 +53,20 @@ def exec {P : Type} [DecidableEq P] (fs : FS P) : Op P → FS P
 
 def execs {P : Type} [DecidableEq P] (fs : FS P) (ops : List (Op P)) : FS P := ops.foldl exec fs
 
-/-- the operations of `with open(p, "wb") as f: f.write(c)` — `c` arrives byte by byte -/
+/-- the operations of `with open(p, "wb") as f: f.write(c)`: open (truncate), write into the buffer, then at close() the
+    buffered `c` reaches the file byte by byte (a process killed before the flush leaves the file EMPTY, killed during it a
+    prefix) -/
 def writeFile {P : Type} (p : P) (c : Bytes) : List (Op P) :=
-  Op.openW p :: (c.map (Op.append p) ++ [Op.close p])
+  Op.openW p :: Op.wbuf p :: (c.map (Op.append p) ++ [Op.close p])
 
 /-- the operations of `with open(p, "a") as f: f.write(c)` -/
 def appendFile {P : Type} (p : P) (c : Bytes) : List (Op P) :=
-  Op.openA p :: (c.map (Op.append p) ++ [Op.close p])
+  Op.openA p :: Op.wbuf p :: (c.map (Op.append p) ++ [Op.close p])
 
 /-- does the operation (possibly) change the entry of path `q`? -/
 def Op.touches {P : Type} [DecidableEq P] (q : P) : Op P → Bool
   | .mkdir _ => false
+  | .wbuf _ => false
   | .openW p => p = q
   | .openA p => p = q
   | .append p _ => p = q
@@ -76,8 +83,9 @@ def coarse {P : Type} [DecidableEq P] (name : P → String) : List (Op P) → Li
   | [] => []
   | .append p _ :: rest =>
       let r := coarse name rest
-      let s := "write " ++ name p
+      let s := "flush " ++ name p
       if r.head? = some s then r else s :: r
+  | .wbuf p :: rest => ("write " ++ name p) :: coarse name rest
   | .mkdir p :: rest => ("mkdir " ++ name p) :: coarse name rest
   | .openW p :: rest => ("openw " ++ name p) :: coarse name rest
   | .openA p :: rest => ("opena " ++ name p) :: coarse name rest
